@@ -25,7 +25,11 @@ class CompositedCacheMixin:
     #
 
     def _remove_cached(self, names):
-        self._merged_solvers = {k: v for k, v in self._merged_solvers.items() if not k & names}
+        # A cached merged solver also covers the variables that the transitive closure pulled in, not only the names it
+        # was requested for: it is stale as soon as any child it was combined from changes.
+        self._merged_solvers = {
+            k: v for k, v in self._merged_solvers.items() if not k & names and not v.variables & names
+        }
 
     def _solver_for_names(self, names):
         n = frozenset(names)
